@@ -31,7 +31,7 @@ import (
 
 // FCfg weights the command families of a log.
 type FCfg struct {
-	Base, ACL, Intention, CA, Autopilot, FedState, FeatureGate, Peering, ManualVIP, DeprecatedACL, Resource, SysMeta, TxnExtra int
+	Base, ACL, Intention, CA, Autopilot, FedState, FeatureGate, Peering, ManualVIP, DeprecatedACL, Resource, SysMeta, TxnExtra, ConfigExtra int
 	BaseCfg                                                                                                                 *Cfg
 }
 
@@ -62,7 +62,7 @@ var Focuses = []string{"", "", "vip", "vip", "acl", "peering", "intention", "ca"
 // DefaultFCfg is the mix used by C01 and C02.
 func DefaultFCfg() *FCfg {
 	return &FCfg{
-		Base: 46, ACL: 15, Intention: 7, CA: 6, Autopilot: 2, FedState: 3, FeatureGate: 2, Peering: 8, ManualVIP: 6, DeprecatedACL: 1, Resource: 3, SysMeta: 3, TxnExtra: 2,
+		Base: 46, ACL: 15, Intention: 7, CA: 6, Autopilot: 2, FedState: 3, FeatureGate: 2, Peering: 8, ManualVIP: 6, DeprecatedACL: 1, Resource: 3, SysMeta: 3, TxnExtra: 2, ConfigExtra: 4,
 		BaseCfg: &Cfg{KV: 22, Session: 8, Reap: 2, Catalog: 28, Dereg: 8, Txn: 10, PQ: 4, Config: 12, Coord: 3, SysMeta: 2, Killer: 3,
 			TxnCatalog: true, Peers: true, Connect: true, Rename: true, SessionChecks: true, MaxTxnOps: 4},
 	}
@@ -79,7 +79,7 @@ type FWorld struct {
 
 // NewFWorld wraps a store getter result. The store handle must be refreshed by the caller if the FSM swaps it.
 func NewFWorld(s *state.Store) *FWorld {
-	return &FWorld{World: NewWorld(s), Clock: time.Date(2024, 5, 17, 10, 0, 0, 0, time.UTC), minted: map[string]int{}}
+	return &FWorld{World: NewWorld(s), Clock: time.Date(2000, 1, 1, 0, 0, 0, 0, time.UTC), minted: map[string]int{}}
 }
 
 const mintCap = 6
@@ -119,6 +119,7 @@ func (w *FWorld) DrawCmd(t *rapid.T, cfg *FCfg) *FCmd {
 		{cfg.Resource, func() *FCmd { return w.DrawResource(t) }},
 		{cfg.SysMeta, func() *FCmd { return w.DrawSysMetaCmd(t) }},
 		{cfg.TxnExtra, func() *FCmd { return w.DrawTxnExtra(t) }},
+		{cfg.ConfigExtra, func() *FCmd { return w.DrawConfigExtra(t) }},
 	}
 	total := 0
 	for _, f := range fams {
@@ -437,7 +438,7 @@ func (w *FWorld) newToken(t *rapid.T) *structs.ACLToken {
 	tok := &structs.ACLToken{AccessorID: acc, SecretID: sec, Description: pick(t, "tokdesc", []string{"", "t1", "t2"}), Local: chance(t, "toklocal", 30),
 		CreateTime: w.tick(t), EnterpriseMeta: defaultEM}
 	if chance(t, "tokexp", 30) {
-		exp := tok.CreateTime.Add(time.Duration(rapid.IntRange(1, 72).Draw(t, "tokttl")) * time.Hour)
+		exp := tok.CreateTime.Add(time.Duration(rapid.IntRange(1, 24).Draw(t, "tokttl")) * time.Hour)
 		tok.ExpirationTime = &exp
 	}
 	return tok
@@ -1171,7 +1172,21 @@ func (w *FWorld) DrawManualVIP(t *rapid.T) *FCmd {
 		svc = pick(t, "vipsvcpick", withVIP)
 	}
 	var ips []string
-	switch mode := rapid.IntRange(0, 9).Draw(t, "vipmode"); {
+	mode := rapid.IntRange(0, 9).Draw(t, "vipmode")
+	if len(withVIP) > 0 && mode <= 6 && chance(t, "vipaimtarget", 80) {
+		// aim: prefer a target that holds no manual IP itself (handing out spreads the IPs over several services,
+		// stealing then takes them from as many services as possible in ONE command)
+		var empty []string
+		for _, o := range withVIP {
+			if len(holders[o]) == 0 {
+				empty = append(empty, o)
+			}
+		}
+		if len(empty) > 0 {
+			svc = pick(t, "vipemptytarget", empty)
+		}
+	}
+	switch {
 	case mode <= 3: // steal: every IP currently held by the other services (plus maybe a free one)
 		var held []string
 		for _, o := range withVIP {
@@ -1315,5 +1330,65 @@ func (w *FWorld) DrawResource(t *rapid.T) *FCmd {
 	b, _ := lg.MarshalBinary()
 	c := NewFCmdRaw("resource/write", "resource", structs.ResourceOperationType, w.NextIdx(t), b, fmt.Sprintf("resource write %s uid=%s vsn=%q", name, short(res.Id.Uid), res.Version))
 	c.RMW = res.Version != ""
+	return c
+}
+
+
+// DrawConfigExtra draws the config entry kinds the shared World generator does not cover: mesh, exported-services,
+// service-splitter, service-router (normalised and validated like every config entry write).
+func (w *FWorld) DrawConfigExtra(t *rapid.T) *FCmd {
+	var e structs.ConfigEntry
+	switch rapid.IntRange(0, 6).Draw(t, "cexkind") {
+	case 0:
+		e = &structs.MeshConfigEntry{TransparentProxy: structs.TransparentProxyMeshConfig{MeshDestinationsOnly: chance(t, "meshdestonly", 50)}}
+	case 1, 2:
+		ex := &structs.ExportedServicesConfigEntry{Name: "default"}
+		n := rapid.IntRange(1, 2).Draw(t, "nexported")
+		for i := 0; i < n; i++ {
+			nm := pick(t, "exsvc", []string{"web", "api", "db", "*"})
+			dup := false
+			for _, s := range ex.Services {
+				dup = dup || s.Name == nm
+			}
+			if !dup {
+				ex.Services = append(ex.Services, structs.ExportedService{Name: nm, Consumers: []structs.ServiceConsumer{{Peer: pick(t, "expeer", peerNames)}}})
+			}
+		}
+		e = ex
+	case 3, 4:
+		sp := &structs.ServiceSplitterConfigEntry{Kind: structs.ServiceSplitter, Name: pick(t, "spname", ServiceNames)}
+		other := pick(t, "spother", ServiceNames)
+		if other == sp.Name || chance(t, "spsingle", 40) {
+			sp.Splits = []structs.ServiceSplit{{Weight: 100, Service: other}}
+		} else {
+			sp.Splits = []structs.ServiceSplit{{Weight: 60}, {Weight: 40, Service: other}}
+		}
+		e = sp
+	default:
+		r := &structs.ServiceRouterConfigEntry{Kind: structs.ServiceRouter, Name: pick(t, "rtname", ServiceNames)}
+		r.Routes = []structs.ServiceRoute{{Match: &structs.ServiceRouteMatch{HTTP: &structs.ServiceRouteHTTPMatch{PathPrefix: "/" + pick(t, "rtpath", []string{"v1", "v2"})}},
+			Destination: &structs.ServiceRouteDestination{Service: pick(t, "rtdest", ServiceNames)}}}
+		e = r
+	}
+	_, cur, _ := w.Store.ConfigEntry(nil, e.GetKind(), e.GetName(), nil)
+	var ci uint64
+	if cur != nil {
+		ci = cur.GetRaftIndex().ModifyIndex
+	}
+	kind, op := ConfigSet, structs.ConfigEntryUpsert
+	switch rapid.IntRange(0, 9).Draw(t, "cexop") {
+	case 0, 1:
+		kind, op = ConfigDelete, structs.ConfigEntryDelete
+	case 2:
+		kind, op = ConfigDelete, structs.ConfigEntryDeleteCAS
+		e.GetRaftIndex().ModifyIndex = pick(t, "cexcas", []uint64{ci, ci, ci + 1})
+	case 3, 4:
+		op = structs.ConfigEntryUpsertCAS
+		e.GetRaftIndex().ModifyIndex = pick(t, "cexcas2", []uint64{ci, ci, ci + 1, 0})
+	}
+	c, err := FromOp(NewConfig(kind, w.NextIdx(t), op, e))
+	if err != nil {
+		return nil
+	}
 	return c
 }
